@@ -417,7 +417,7 @@ pub fn run(mut chk: Check) -> ! {
         .into();
     chk.assumptions = vec!["the reference predicate is computed from the texts by the harness's own schema reader".into(), "the nested-definition-referenced-by-sibling defect depends on the per-call hash seed; its class is excluded from the main campaign by construction so that the verdict of this check is deterministic".into()];
     chk.replay_files(dispatch);
-    let n = chk.scale(1500, 40_000);
+    let n = chk.scale(8000, 60_000);
     chk.campaign(CampaignCfg::new("sets", n).len(0, 300), case_set);
     chk.campaign(CampaignCfg::new("known_classes", n / 5).len(0, 300), case_known_classes);
     chk.require_label("sets:cross_refs", "sets:set", 30.0);
